@@ -68,7 +68,7 @@ def check_target(ctx, repo, c, m, smc: bool, beta_term, z_term, construct):
     inv_calls = [s for s in T.subterms(val) if s and s[0] == "f" and s[1] == "method:inverse"
                  and len(s[2]) == 2 and s[2][0] == self_attr("preconditioning_transform")]
     if len(inv_calls) != 1:
-        ctx.refute("C05.id", construct, loc_of(m), f"expected one preconditioning_transform.inverse call feeding the target, found {len(inv_calls)}")
+        (ctx.refute if not inv_calls else ctx.unknown)("C05.id", construct, loc_of(m), f"expected one preconditioning_transform.inverse call feeding the target, found {len(inv_calls)}")
         return
     inv = inv_calls[0]
     zarg = inv[2][1]
@@ -76,7 +76,8 @@ def check_target(ctx, repo, c, m, smc: bool, beta_term, z_term, construct):
     objs = [o for (o, a) in ev.heap if o[0] == "obj" and a == "x"]
     objs = [o for o in dict.fromkeys(objs) if any(s == o for s in T.subterms(val))]
     if len(objs) != 1:
-        ctx.refute("C05.id", construct, loc_of(m), f"expected one sample set carrying the evaluated point, found {len(objs)}")
+        # several sets (e.g. a sub-selection evaluated separately) is a shape this rule cannot decide: undecided, not a violation
+        (ctx.refute if not objs else ctx.unknown)("C05.id", construct, loc_of(m), f"expected one sample set carrying the evaluated point, found {len(objs)}")
         return
     o = objs[0]
     bad = []
